@@ -10,6 +10,8 @@ package main
 //   resolve – real composite.Resolve / ResolveTransforms on a generated input
 //   render  – real RenderFromJSON + RenderComposedResourceMetadata        (c10_render.go)
 //   compose – real PTComposer.Compose over simstore                       (c10_compose.go)
+//   cseq    – one long-lived PTComposer over a sequence of reconciles, with a world that
+//             interferes around every Apply                               (c10_world.go)
 //
 // What is sent to the Lean model: the abstract scenario (objects with int64 and
 // float64 kept apart, parsed field paths, decoded extv1.JSON values) plus
@@ -144,11 +146,18 @@ type c10Patch struct {
 	Combine  *c10Combine      `json:"combine"`
 	Xfs      []c10Xf          `json:"xfs"`
 	Policy   *c10Policy       `json:"policy"`
+	// the patch set a patch of type PatchSet refers to (cseq scenarios; c10_world.go)
+	Set      *string          `json:"set,omitempty"`
 	MergeOrc []map[string]any `json:"mergeOrc"`
 	// compose scenarios: mergo verdicts for the apply option this patch contributes (c10_compose.go)
 	ApplyOrc []map[string]any `json:"applyOrc,omitempty"`
 	// set by c10FillPatchOracles: the value the patch is to write (source read, transforms done)
 	out any
+}
+
+type c10WarmCall struct {
+	Input any     `json:"input"`
+	Xfs   []c10Xf `json:"xfs"`
 }
 
 type c10Scn struct {
@@ -163,9 +172,15 @@ type c10Scn struct {
 	// resolve
 	Input any     `json:"input,omitempty"`
 	Xfs   []c10Xf `json:"xfs,omitempty"`
+	// resolve: related calls made BEFORE the one under test in the same process (same input with
+	// other transforms of the same types, or the same transforms on another input). The model is per
+	// call and ignores them; state a process carries from one call to the next shows up.
+	Warm []c10WarmCall `json:"warm,omitempty"`
 	// render / compose: see the respective files
 	Render  *c10RenderScn  `json:"render,omitempty"`
 	Compose *c10ComposeScn `json:"compose,omitempty"`
+	// cseq: a sequence of reconciles by one long-lived composer (c10_world.go)
+	Seq *c10SeqScn `json:"seq,omitempty"`
 }
 
 // ---------------------------------------------------------------- value encoding
@@ -428,6 +443,10 @@ func c10RealPatch(p c10Patch) v1.Patch {
 		s := p.To.Raw
 		out.ToFieldPath = &s
 	}
+	if p.Set != nil {
+		s := *p.Set
+		out.PatchSetName = &s
+	}
 	if p.Combine != nil {
 		c := &v1.Combine{Strategy: v1.CombineStrategy(p.Combine.Strategy), Variables: []v1.CombineVariable{}}
 		for _, v := range p.Combine.Vars {
@@ -647,9 +666,13 @@ func c10FillChainOracles(xfs []c10Xf, input any, mons *[]Mon) (any, bool) {
 		var err error
 		rt := c10RealXf(xfs[i])
 		if pn := Guard(func() { out, err = composite.Resolve(rt, c10Copy(cur)) }); pn != "" || err != nil {
+			if pn == "" {
+				c10KnownMonitor(xfs[i], cur, nil, c10ErrClass(err), mons)
+			}
 			return nil, false
 		}
 		c10ClampMonitor(xfs[i], cur, out, mons)
+		c10KnownMonitor(xfs[i], cur, out, "", mons)
 		// a typed nil map / slice (json.Unmarshal of the text "null" into a map or slice) has no
 		// counterpart among the model's values: the scenario is outside the model's domain
 		if m, ok := out.(map[string]any); ok && m == nil {
@@ -951,6 +974,17 @@ func c10RunResolve(s *c10Scn) (map[string]any, []Mon, string) {
 		c10PrepXf(&s.Xfs[i])
 	}
 	var mons []Mon
+	for i := range s.Warm {
+		w := &s.Warm[i]
+		win := c10Dec(w.Input)
+		w.Input = c10Enc(win)
+		for j := range w.Xfs {
+			c10PrepXf(&w.Xfs[j])
+		}
+		ood := c10OOD
+		c10FillChainOracles(w.Xfs, win, &mons)
+		c10OOD = ood
+	}
 	c10FillChainOracles(s.Xfs, in, &mons)
 	run := func() (string, any) {
 		var out any
@@ -1005,7 +1039,11 @@ func c10RunResolve(s *c10Scn) (map[string]any, []Mon, string) {
 		}
 		names = append(names, n)
 	}
-	return obs, mons, fmt.Sprintf("resolve/%s/in=%s/%s", strings.Join(names, ","), c10TypeName(in), c10Or(ec, "ok"))
+	warm := ""
+	if len(s.Warm) > 0 {
+		warm = "warm/"
+	}
+	return obs, mons, fmt.Sprintf("resolve/%s%s/in=%s/%s", warm, strings.Join(names, ","), c10TypeName(in), c10Or(ec, "ok"))
 }
 
 func c10TypeName(v any) string {
@@ -1110,6 +1148,11 @@ func c10RunKind(s *c10Scn) (any, []Mon, string) {
 			return map[string]any{}, nil, "trivial/bad-scenario"
 		}
 		return c10RunCompose(s)
+	case "cseq":
+		if s.Seq == nil || len(s.Seq.Steps) == 0 {
+			return map[string]any{}, nil, "trivial/bad-scenario"
+		}
+		return c10RunSeq(s)
 	}
 	return map[string]any{}, nil, "trivial/unknown-kind"
 }
